@@ -113,8 +113,63 @@ class MatcherNF:
             # ... those that hand out a list of the table as it is (``return self.spec["given"]``); a property computed
             # from others (all step keywords in one list) is evaluated like any helper
             I.opaque_attrs[dcls.qualname] = _table_properties(dcls).__contains__
-        tree, rv, st = I.run(q)
+        tree, rv, st = I.run(q, ext=self._dialect_derived(I, selfname))
         return tree, rv, st
+
+    def _dialect_derived(self, I, selfname) -> dict:
+        """Attributes that only the dialect switch binds, to an expression of the dialect it installs (a keyword list put together
+        once per dialect): while matching they hold that expression of ``self.dialect``.  {(self, attr): term}; whether such an
+        attribute follows every dialect change is C15.reset's question (it must be bound where the dialect is)."""
+        from ..absint import State, Activation
+        fam = [c for c in I.facts.all_classes() if self.cls in c.mro() or c in self.cls.mro()]
+        writers: dict = {}
+        for c in fam:
+            for m in c.methods.values():
+                me = m.params()[0] if m.params() else None
+                for n in ast.walk(m.node):
+                    if isinstance(n, ast.Attribute) and isinstance(n.ctx, (ast.Store, ast.Del)) and isinstance(n.value, ast.Name) and n.value.id == me:
+                        writers.setdefault(n.attr, set()).add(m.name)
+        group = {N.DIALECT_NAME, N.DIALECT, N.KEYWORD_TYPES}
+        out = {}
+        selft = ("param", selfname)
+        for c in self.cls.mro():
+            sw = c.methods.get(N.CHANGE_DIALECT)
+            if sw is None:
+                continue
+            me = sw.params()[0]
+            aliases = set()
+            for st_ in sw.node.body:
+                if isinstance(st_, ast.Assign) and len(st_.targets) == 1 and isinstance(st_.targets[0], ast.Name) and isinstance(st_.value, ast.Call) \
+                        and isinstance(st_.value.func, ast.Attribute) and st_.value.func.attr == "for_name":
+                    aliases.add(st_.targets[0].id)
+                if isinstance(st_, ast.Assign) and len(st_.targets) == 1 and isinstance(st_.targets[0], ast.Name) and isinstance(st_.value, ast.Attribute) \
+                        and st_.value.attr == N.DIALECT and isinstance(st_.value.value, ast.Name) and st_.value.value.id == me:
+                    aliases.add(st_.targets[0].id)          # ``dialect = self.dialect`` after the dialect was installed
+            for st_ in sw.node.body:
+                if not (isinstance(st_, ast.Assign) and len(st_.targets) == 1 and isinstance(st_.targets[0], ast.Attribute)
+                        and isinstance(st_.targets[0].value, ast.Name) and st_.targets[0].value.id == me):
+                    continue
+                a = st_.targets[0].attr
+                if a in group or a in out or writers.get(a) != {N.CHANGE_DIALECT}:
+                    continue
+                names = {x.id for x in ast.walk(st_.value) if isinstance(x, ast.Name) and isinstance(x.ctx, ast.Load)}
+                local = {x.id for x in ast.walk(sw.node) if isinstance(x, ast.Name) and isinstance(x.ctx, ast.Store)} | set(sw.params()[1:])
+                if (names & local) - aliases:
+                    continue            # computed from other locals: not followed
+                env = {me: selft}
+                for al in aliases:
+                    env[al] = ("attr", selft, N.DIALECT)
+                I.stack.append(Activation(sw, len(I.stack)))
+                try:
+                    scratch: list = []
+                    v = I.ev(State(env=env), st_.value, scratch)
+                except Exception:
+                    v = None
+                finally:
+                    I.stack.pop()
+                if v is not None and I._effect_free(scratch):
+                    out[(selft, a)] = v
+        return out
 
 
 def _table_properties(dcls) -> set:
@@ -1205,8 +1260,45 @@ def rule_reset(rep: Report, rid="C15.reset", classes=(MQ, "gherkin.token_matcher
                 established.setdefault(n[2], []).append((n[3], gs))
         group = {N.DIALECT_NAME, N.DIALECT, N.KEYWORD_TYPES}
         has_cd = any(n[0] == "change_dialect" for n, _ in nf.iter_nodes(tree))
+        # an attribute that only the dialect switch writes, on the path that installs the dialect, from the new dialect alone
+        # (a keyword list put together once per dialect) is part of the dialect state: consistent with it whenever it is
+        derived = set()
+        for a in sorted(set(written) - group):
+            if not all(w.rsplit(".", 1)[1] == N.CHANGE_DIALECT for w in written[a]):
+                continue
+            okd = True
+            for w in sorted(written[a]):
+                I2 = new_interp()
+                wfi = I2.facts.func(w)
+                try:
+                    t2, _rv2, st2 = I2.run(w)
+                except AnalysisError:
+                    okd = False
+                    break
+                s2 = ("param", wfi.params()[0])
+                sets_a = [(n, nf.guards_in_ctx(c)) for n, c in nf.iter_nodes(t2) if n[0] == "setattr" and n[1] == s2 and n[2] == a]
+                sets_d = [(n, nf.guards_in_ctx(c)) for n, c in nf.iter_nodes(t2) if n[0] == "setattr" and n[1] == s2 and n[2] == N.DIALECT]
+                if len(sets_a) != 1 or not sets_d or (sets_a[0][1] and sets_a[0][1] != sets_d[-1][1]):
+                    okd = False
+                    break
+                v_ = sets_a[0][0][3]
+                o_ = I2.obj(v_)
+                from ..absint import HGen
+                if getattr(o_, "one_shot", None) or isinstance(o_, HGen) or (v_[0] == "call" and (v_[1] in ("map", "zip", "filter", "iter", "reversed", "enumerate")
+                                                                                               or v_[1].startswith("itertools."))):
+                    rep.ob(rid, f"{cls.short}: attribute {a} keeps a sequence, not an iterator (an iterator is used up by the first line that walks it)", False,
+                           file=wfi.file, line=wfi.node.lineno, function=wfi.qualname, expected="list / tuple", found=fmt(v_, I2)[:120])
+                    okd = False
+                    break
+                reads = [x for x in nf.subterms(sets_a[0][0][3]) if x[0] == "attr" and x[1] == s2 and x[2] not in group] + \
+                    [x for x in nf.subterms(sets_a[0][0][3]) if x[0] in ("phi", "loopout") and isinstance(x[2], tuple)]
+                if reads:
+                    okd = False
+                    break
+            if okd:
+                derived.add(a)
         for a in sorted(written):
-            if a in group:
+            if a in group or a in derived:
                 rep.ob(rid, f"{cls.short}: {a} is restored by reset() through the dialect switch (see the triple rule)", has_cd,
                        file=rfi.file, line=rfi.node.lineno, function=rfi.qualname, expected="_change_dialect(default)", found="no dialect restore in reset()")
                 continue
